@@ -37,6 +37,7 @@ extern "C" {
 #include "upipe/config.h"
 #include "upipe/ubase.h"
 #include "upipe/upump.h"
+#include "upipe/uverif.h"
 
 #include <assert.h>
 #include <errno.h>
@@ -119,6 +120,7 @@ static inline bool ueventfd_read(struct ueventfd *fd)
     if (likely(fd->mode == UEVENTFD_MODE_EVENTFD)) {
         for ( ; ; ) {
             eventfd_t event;
+            UPIPE_VERIF_YIELD(UVERIF_EVFD_R, fd);
             int ret = eventfd_read(fd->event_fd, &event);
             if (likely(ret != -1))
                 return true;
@@ -170,6 +172,7 @@ static inline bool ueventfd_write(struct ueventfd *fd)
 #ifdef UPIPE_HAVE_EVENTFD
     if (likely(fd->mode == UEVENTFD_MODE_EVENTFD)) {
         for ( ; ; ) {
+            UPIPE_VERIF_YIELD(UVERIF_EVFD_W, fd);
             int ret = eventfd_write(fd->event_fd, 1);
             if (likely(ret != -1))
                 return true;
@@ -284,6 +287,7 @@ static inline void ueventfd_clean(struct ueventfd *fd)
 {
 #ifdef UPIPE_HAVE_EVENTFD
     if (likely(fd->mode == UEVENTFD_MODE_EVENTFD)) {
+        UPIPE_VERIF_YIELD(UVERIF_EVFD_CLOSE, fd);
         close(fd->event_fd);
     } else
 #endif
